@@ -11,12 +11,13 @@ BadDefault == {i \in Of("default") : ~DefaultValid(Facts[i])}
 BadLoad    == {[i |-> i, laws |-> BrokenLoadLaws(Facts[i])] : i \in {j \in Of("load") : BrokenLoadLaws(Facts[j]) # {}}}
 BadReject  == {i \in Of("reject") : ~RejectedAtLoad(Facts[i])}
 BadHidden  == {i \in Of("hidden") : ~Hidden(Facts[i])}
+BadSubset  == {i \in Of("subset") : ~Preserved(Facts[i])}
 Secrets    == {i \in Of("hidden") : IsSecret(Facts[i])}
 UnknownClass == {i \in Of("load") : Facts[i].class \notin Classes[Facts[i].vkind]}
 
 ASSUME ndJsonSerialize(IOEnv.VERDICT_FILE,
     <<[n |-> Len(Facts), baddefault |-> BadDefault, badload |-> BadLoad, badreject |-> BadReject, badhidden |-> BadHidden,
-       secrets |-> Secrets, unknownclass |-> UnknownClass]>>)
+       badsubset |-> BadSubset, secrets |-> Secrets, unknownclass |-> UnknownClass]>>)
 VARIABLE x
 Init == x = 0
 Next == UNCHANGED x
